@@ -339,7 +339,86 @@ fn kind_v(j: &Value) -> &'static str {
     }
 }
 
+/// Exact comparison of a parsed body with an expectation given as an own tree
+/// (used where serde_json::Value cannot represent the value, e.g. integers
+/// beyond 64 bits): numbers must have the identical text (the expectation
+/// carries canonical decimal integers), objects are unordered, no duplicates.
+pub fn same_exact(got: &J, want: &J) -> Result<(), String> {
+    cmp_exact(got, want, &mut String::new())
+}
+
+fn cmp_exact(got: &J, want: &J, path: &mut String) -> Result<(), String> {
+    let fail = |path: &str, why: String| Err(format!("at {}: {why}", if path.is_empty() { "/" } else { path }));
+    match (got, want) {
+        (J::Null, J::Null) => Ok(()),
+        (J::Bool(a), J::Bool(b)) if a == b => Ok(()),
+        (J::Str(a), J::Str(b)) => {
+            if a == b {
+                Ok(())
+            } else {
+                fail(path, format!("string differs: got {:?} want {:?}", crate::gen::show(a), crate::gen::show(b)))
+            }
+        }
+        (J::Num(a), J::Num(b)) => {
+            if a == b {
+                Ok(())
+            } else {
+                fail(path, format!("number differs: got text {a} want {b}"))
+            }
+        }
+        (J::Arr(a), J::Arr(b)) => {
+            if a.len() != b.len() {
+                return fail(path, format!("array length {} want {}", a.len(), b.len()));
+            }
+            for (i, (x, y)) in a.iter().zip(b).enumerate() {
+                let l = path.len();
+                path.push_str(&format!("/{i}"));
+                cmp_exact(x, y, path)?;
+                path.truncate(l);
+            }
+            Ok(())
+        }
+        (J::Obj(a), J::Obj(b)) => {
+            let mut seen = std::collections::BTreeSet::new();
+            for (k, _) in a {
+                if !seen.insert(k.as_str()) {
+                    return fail(path, format!("duplicate member {:?}", crate::gen::show(k)));
+                }
+            }
+            if a.len() != b.len() {
+                return fail(path, format!("object has {} members, want {}", a.len(), b.len()));
+            }
+            for (k, x) in a {
+                let Some((_, y)) = b.iter().find(|(n, _)| n == k) else {
+                    return fail(path, format!("unexpected member {:?}", crate::gen::show(k)));
+                };
+                let l = path.len();
+                path.push('/');
+                path.push_str(&crate::gen::show(k));
+                cmp_exact(x, y, path)?;
+                path.truncate(l);
+            }
+            Ok(())
+        }
+        _ => fail(path, format!("type differs: got {} want {}", kind_j(got), kind_j(want))),
+    }
+}
+
 impl J {
+    /// JSON text (for witnesses)
+    pub fn text(&self) -> String {
+        match self {
+            J::Null => "null".into(),
+            J::Bool(b) => b.to_string(),
+            J::Num(t) => t.clone(),
+            J::Str(s) => serde_json::to_string(s).unwrap_or_default(),
+            J::Arr(a) => format!("[{}]", a.iter().map(|x| x.text()).collect::<Vec<_>>().join(",")),
+            J::Obj(m) => format!(
+                "{{{}}}",
+                m.iter().map(|(k, v)| format!("{}:{}", serde_json::to_string(k).unwrap_or_default(), v.text())).collect::<Vec<_>>().join(",")
+            ),
+        }
+    }
     pub fn get(&self, k: &str) -> Option<&J> {
         match self {
             J::Obj(m) => m.iter().find(|(n, _)| n == k).map(|(_, v)| v),
